@@ -104,7 +104,22 @@ def run_one(split, case):
     needed = -1
     stops = 0
     for c in case['script']:
+        if c in 'xy':
+            # the consumer abandons one half for good (closed / garbage collected while suspended): the other
+            # half must go on yielding exactly its own elements
+            if c == 'x':
+                a = None
+                expT = gotT[:]
+            else:
+                b = None
+                expF = gotF[:]
+            if case.get('gc'):
+                import gc as _gc
+                _gc.collect()       # a half that sits in a reference cycle is only finalised by the collector
+            continue
         it, got, exp, want = (a, gotT, expT, True) if c == 'L' else (b, gotF, expF, False)
+        if it is None:
+            continue            # that half was abandoned
         idxs = [i for i in range(k) if t[i] == want]
         try:
             got.append(next(it))
@@ -142,8 +157,8 @@ def run_one(split, case):
                 break
     # exhaust both fully when the script asked for it
     if case.get('finish') and not errs:
-        restT = list(a)
-        restF = list(b)
+        restT = list(a) if a is not None else []
+        restF = list(b) if b is not None else []
         if gotT + restT != expT or gotF + restF != expF:
             errs.append(('C18:partition', 'the two iterators together are not the expected partition',
                          {'true': repr(gotT + restT), 'false': repr(gotF + restF),
@@ -181,6 +196,9 @@ class C18(Check):
         self.exhaust = exhaust
 
     def cases(self, tier, seed):
+        for L in range(0, 8):
+            for kind in ('gen', 'iter', 'list', 'map'):
+                yield {'exhaust': kind, 'n': L}
         maxL = 3 if tier == 'quick' else 4
         for L in range(0, maxL + 1):
             for src in itertools.product([0, 1, 2], repeat=L):
@@ -194,6 +212,11 @@ class C18(Check):
                             for sc in all_scripts(L + 1):
                                 yield {'src': list(src), 'vals': list(tr), 'truth': list(tr), 'cond': ck, 'srck': sk,
                                        'script': sc, 'finish': True}
+                                if 2 <= L <= 3 and ck in ('call', 'list') and len(sc) >= 1:
+                                    for pos in range(1, len(sc) + 1):
+                                        for dr in 'xy':
+                                            yield {'src': list(src), 'vals': list(tr), 'truth': list(tr), 'cond': ck,
+                                                   'srck': sk, 'script': sc[:pos] + dr + sc[pos:], 'finish': True}
         rng = random.Random(seed * 31 + 1)
         n = 40000 if tier == 'quick' else 900000
         for i in range(n):
@@ -211,11 +234,11 @@ class C18(Check):
             script = ''.join(rng.choice('LR') for _ in range(rng.randint(0, 2 * L + 4)))
             if rng.random() < 0.2:
                 script = script.replace('R', '')
+            if script and rng.random() < 0.25:
+                pos = rng.randrange(len(script) + 1)
+                script = script[:pos] + rng.choice('xy') + script[pos:]
             yield {'src': src, 'vals': vals, 'truth': tr, 'cond': ck, 'srck': sk, 'script': script,
-                   'finish': rng.random() < 0.7, 'cond_as_list': rng.random() < 0.5}
-        for L in range(0, 8):
-            for kind in ('gen', 'iter', 'list', 'map'):
-                yield {'exhaust': kind, 'n': L}
+                   'finish': rng.random() < 0.7, 'cond_as_list': rng.random() < 0.5, 'gc': rng.random() < 0.3}
 
     def run_case(self, case):
         res = CaseResult()
@@ -255,6 +278,8 @@ class C18(Check):
                 res.violate(sig, what, case={k: repr(v) for k, v in case.items()}, **detail)
         L = len(case['src'])
         both = 'L' in case['script'] and 'R' in case['script']
+        if 'x' in case['script'] or 'y' in case['script']:
+            st['scripts_dropping_one_half'] += 1
         if both:
             st['scripts_touching_both_iterators'] += 1
             if case['script'].find('R') < case['script'].rfind('L'):
@@ -268,7 +293,7 @@ class C18(Check):
     def floors(self, tier):
         k = 1 if tier == 'quick' else 10
         return {'nontrivial': 20000 * k, 'scripts_interleaving': 10000 * k, 'exhaust_cases': 32,
-                'cond_call_stateful': 3000 * k, 'cond_short': 3000 * k, 'cond_long': 3000 * k, 'source_oneshot': 5000 * k}
+                'scripts_dropping_one_half': 5000 * k, 'cond_call_stateful': 3000 * k, 'cond_short': 3000 * k, 'cond_long': 3000 * k, 'source_oneshot': 5000 * k}
 
     def extra_evidence(self, tier, agg):
         return {'exhaustive': False,
